@@ -139,6 +139,7 @@ package core
 //@   ensures[C06] @gaslimit err == nil ==> old(uint64(*st.gp)) >= msg_gas(st.msg)
 //@   ensures[C06] @failedflag err == nil ==> failed == vm_failed
 //@   ensures[C06] @nonceinc err == nil && as(msg_to(st.msg), "*common.Address") != nil ==> entry_nonces[msg_from(st.msg)] == old(nonces[msg_from(st.msg)]) + 1
+//@   assigns *st.gp, inferred
 //@   nopanic[C06]
 
 // ---- evm.go ---------------------------------------------------------------------------------
@@ -422,9 +423,10 @@ package core
 //@ ghost am_err Bool
 //@ func ApplyMessage
 //@   axiom am_gas == result1 && am_failed == result2 && am_err == (result3 != nil)
-//@   assigns am_gas, am_failed, am_err, inferred
+//@   assigns *gp, am_gas, am_failed, am_err, inferred
+// The cumulative counter must not be the block gas pool itself (both are 64-bit cells).
 //@ func ApplyTransaction
-//@   requires config != nil && header != nil && tx != nil && usedGas != nil && statedb != nil
+//@   requires config != nil && header != nil && tx != nil && usedGas != nil && statedb != nil && usedGas != as(gp, "*uint64")
 //@   ensures[C06] @cumulative result2 == nil ==> !am_err && result1 == am_gas && *usedGas == old(*usedGas) + am_gas && result0 != nil && result0.CumulativeGasUsed == *usedGas && result0.GasUsed == am_gas
 //@   ensures[C06] @status result2 == nil ==> (am_failed ==> result0.Status == 0) && (!am_failed ==> result0.Status == 1)
 //@   ensures[C06] @rejected result2 != nil ==> result0 == nil && *usedGas == old(*usedGas)
